@@ -1173,6 +1173,8 @@ def string_is_empty(e, args, fr, m):
     s = e.load(args[0])
     if s.concrete:
         return s.v == ''
+    if getattr(s, 'byte_len', None) is not None:
+        return s.byte_len == 0 if isinstance(s.byte_len, int) else z3.simplify(s.byte_len == 0)
     return z3.simplify(z3.Length(s.z()) == 0)
 
 
